@@ -13,6 +13,7 @@ func propC04(c *Ctx) propInfo {
 	c.externalEnvelope()
 	c.copyLiterals("E12.copy-literal", map[string]string{}, "tlb", "wallet", "ton", "abi", "liteapi")
 	c.floor("E12.copy-literal", 1)
+	c.valueReceivers("E14.value-receivers", "MarshalTLB", "tlb", "wallet", "abi", "ton", "tep64")
 	return propInfo{
 		explanation: "Static structural clauses of C04 (DESIGN.md §4 C04): for every block.tlb / wallet structure in /verif/spec/tlb_layouts.spec the wire layout that the reflection codec derives from the Go struct (field order, widths, tags, refs, Maybe/Either, dictionary key widths) equals the schema term; generated integer types write the declared width. Decides layout agreement, not the bit-level behaviour of the primitive writers.",
 		assumptions: []string{"the spec table is a faithful transcription of block.tlb / wallet contracts", "bit-level primitive writers are covered by C06 clauses"},
